@@ -353,7 +353,7 @@ impl Prop for C06 {
         }
     }
     fn nontrivial_rule(&self) -> &'static str {
-        "scenario = cancellation mode, fixed or per-request timeouts from {0,10,25,50}ms, builder call order, 1-6 concurrent calls on clones with latencies below/at/above the timeout or never, ok/error, caller cancels, clock jumps, panicking listeners; schedule seeded (select! branch order via tokio rng_seed). Non-trivial: at least one call timed out. Distinct = distinct event-log digest."
+        "scenario = cancellation mode, fixed or per-request timeouts from {0,10,25,50}ms (optionally plus a sub-millisecond part) or Duration::MAX, builder call order, 1-6 concurrent calls on clones with latencies below/at/above the timeout or never, ok/error, caller cancels, clock jumps, panicking listeners; schedule seeded (select! branch order via tokio rng_seed). Non-trivial: at least one call timed out. Distinct = distinct event-log digest."
     }
     fn real_components(&self) -> Vec<&'static str> {
         vec!["tower-resilience-timelimiter (TimeLimiter, builder, both modes)", "tokio::time::timeout / sleep / select! / spawn / oneshot on the paused clock"]
